@@ -141,7 +141,8 @@ PROPS = {
             {"name": "o_rd_panics", "module": "rd", "quick": 3000, "thorough": 60000, "kind": "oracle", "profiles": ["debug"],
              "args": {"panics": True, "prefix": "o_rd"}},
             {"name": "wr", "module": "wr", "quick": 1500, "thorough": 20000, "profiles": ["debug", "release"], "oracle_prefix": "o_wr"},
-            {"name": "tx_digits", "module": "tx", "quick": 2000, "thorough": 20000, "profiles": ["debug"], "args": {"kind": "digits"}},
+            {"name": "tx_digits", "module": "tx", "quick": 2000, "thorough": 20000, "profiles": ["debug", "release"], "args": {"kind": "digits"},
+             "oracle_prefix": "o_tx"},
         ],
         "rule": "reader histories extended with advance/advance_with_buf beyond the buffered length (panic caught, history "
                 "continues) and sources claiming more bytes than the slice; writer histories with buffer-boundary integers; "
